@@ -33,7 +33,10 @@ register(
     ],
     streams=["editmatrix", "strscript", "editmatrix_O", "strscript_O"],
     assumptions=[
-        "strings are sequences of characters compared with ==; StringNode objects are str (bytes are not modelled)",
+        "strings are sequences of elements compared with ==: str and bytes; elements of size 1 (a character of a str; an "
+        "element of a bytes object is an int wrapped in StringNode(int), which must count as size 1 like a character for the "
+        "LCS theorems to apply: with element size 2 = len(str(97)) a substitution (cost 1) is cheaper than remove + insert "
+        "and the script is not an LCS script)",
         "every matrix cell is fully tightened (definitive) before _best_match reads it, so the script depends on "
         "final costs only (asserted by levenshtein.py itself and checked by the editmatrix/strscript streams under "
         "three ways of driving the edit)",
@@ -43,5 +46,6 @@ register(
         "harness/streams/editmatrix.py fake LeafNode subclass (edits() returns Match(self, other, table[r][c])) and "
         "its _cleanup observation hook used to read costs/path_costs before they are freed",
     ],
-    partial="",
+    partial="bytes strings (diffable since /repo bb73030, element-wise over StringNode(int)) are covered by the theorems only "
+            "under the assumption 'elements of size 1'; the strscript stream generates str inputs only",
 )
